@@ -8,8 +8,32 @@ import time
 import sup
 
 
+HANG_CONFIRM_S = 120  # same horizon as the "alone" re-run of the supervisor
+
+
+class C01Check(sup.Check):
+    """The supervisor confirms every new violation class by replaying it twice with a 600 s limit; for a hang that is 4 x 600 s.
+    A hang is confirmed here with the horizon that defined it."""
+
+    def rerun(self, v):
+        if v.get('sig') != 'hang':
+            return super().rerun(v)
+        import subprocess
+        exe = sup.binpath(v['flavour'], v['harness'])
+        e = dict(os.environ)
+        e.update(sup.ASAN_ENV)
+        try:
+            r = subprocess.run([exe, 'run', v['family'], str(v['i']), str(v['i'] + 1)] + list(v.get('args', [])), capture_output=True, env=e, timeout=HANG_CONFIRM_S)
+        except subprocess.TimeoutExpired:
+            return ['hang']
+        sigs = [json.loads(l)['sig'] for l in r.stdout.decode('utf-8', 'replace').splitlines() if l.startswith('{') and '"sig"' in l]
+        if r.returncode != 0:
+            sigs.append(sup.crash_signature(r.stderr.decode('utf-8', 'replace'), r.returncode))
+        return sigs
+
+
 def main(tier):
-    c = sup.Check('C01', tier, 'exploration')
+    c = C01Check('C01', tier, 'exploration')
     quick = tier == 'quick'
     only = os.environ.get('C01_ONLY')
     c.build('asan', ['c01'])
